@@ -24,7 +24,8 @@ META = {
                    "oracle is independent of the model.",
 }
 
-DERIVE = ["copy", "add_record", "constructor", "update", "add_bundle_doc", "unified", "unified_bundle", "flattened", "json", "xml", "rdf"]
+DERIVE = ["copy", "add_record", "constructor", "update", "add_bundle_doc", "add_bundle_empty_doc", "unified", "unified_bundle", "flattened",
+          "json", "xml", "rdf"]
 MUTATE = ["add_attrs", "add_record", "add_ns", "set_default", "add_bundle", "set_time", "add_type", "conv", "add_attrs_new_ns"]
 
 
@@ -160,6 +161,15 @@ def derive(g, w, b, d, how):
         b._init_scope(t)
         err = w.add_bundle(t, d, QualifiedName(Namespace("ex", "http://example.org/"), "attached"))
         return ("cont", d, t) if err is None else None
+    if how == "add_bundle_empty_doc":
+        # a document that so far only declares namespaces (no record of its own) is added as a bundle: a copy, like any other
+        src = w.new_doc()
+        b._init_scope(src)
+        b.setup_scope(src)
+        t = w.new_doc()
+        b._init_scope(t)
+        err = w.add_bundle(t, src, QualifiedName(Namespace("ex", "http://example.org/"), "attached"))
+        return ("cont", src, t) if err is None else None
     if how == "unified":
         t, err = w.unified(d)
         return ("cont", d, t) if t else None
